@@ -67,6 +67,30 @@ def volume_record(rng, b, fam, orient, dyadic=False):
     return rec
 
 
+def volume_record_long(rng, b, axis, length=15000, res=0.19):
+    """A very elongated cell (a wire / channel model): more than 2^16 voxels along one axis, a handful along the others; samples in
+    every part of the long axis, in particular beyond voxel 65535."""
+    from pymatgen.core import Lattice, Species
+    from gemdat import Trajectory, trajectory_to_volume
+    lens = [2, 3, 2]
+    lens[axis] = length
+    N = 2 ** 14 if (length / res) * 2 ** 14 < 2 ** 31 - 1 else 2 ** 13          # TLC integers are 32 bit: N x voxels must fit
+    T, A = 6, 4
+    k = 2 * np.array(rng.integers(0, N // 2, size=(T, A, 3))) + 1
+    k[:, 0, axis] = 2 * np.array(rng.integers(int(0.45 * N), N // 2, size=T)) + 1          # the far end of the long axis
+    M = np.diag([float(x) for x in lens])
+    if rng.random() < 0.5:
+        M = M @ gen.random_rotation(rng).T
+    traj = Trajectory(species=[Species('Li')] * A, coords=k / N + rng.integers(-1, 2, size=k.shape), lattice=Lattice(M), time_step=1e-15)
+    vol = trajectory_to_volume(traj, resolution=res)
+    data = np.asarray(vol.data)
+    nz = np.argwhere(data > 0)
+    unit = 1000
+    return {'b': b, 'act': 'Volume', 'N': N, 'pos': np.mod(k, N).tolist(), 'L': [L * unit for L in lens], 'res': int(round(res * unit)),
+            'dims': [int(x) for x in data.shape], 'cells': [[int(x), int(y), int(z), int(data[x, y, z])] for x, y, z in nz],
+            'total': int(data.sum()), 'meta': {'family': f'elongated axis {axis}', 'resolution': res, 'length': length}}
+
+
 def roundtrip_record(b, n):
     from pymatgen.core import Lattice
     from gemdat import Volume
@@ -100,7 +124,8 @@ def free_energy_record(rng, b):
         vals = rng.integers(1, 4, size=nvis)
         vals[int(rng.integers(0, nvis))] = int(rng.integers(10 ** 9, 2 * 10 ** 9))
     counts.reshape(-1)[idx] = vals
-    temp = float(rng.choice([1.0, 300.0, 650.0, 2000.0]))
+    # any positive temperature (kT below and above 1 eV: 11 604.5 K)
+    temp = float(rng.choice([1.0, 300.0, 650.0, 2000.0, 11000.0, 12000.0, 50000.0, 1e6, 0.01]))
     # probabilities do not depend on the overall scale of the density: feed integer counts, the same as floats, or multiplied by
     # an arbitrary positive factor (e.g. a density per cubic Angstrom)
     form = int(rng.integers(0, 4))
